@@ -693,8 +693,8 @@ func Run(o *core.Options) int {
 	r.Eval(1)
 	wl.Cleanup()
 	var traces int64
+	wl.MergeAll(cs, r)
 	for _, c := range cs {
-		c.MergeInto(r)
 		traces += c.Counts["transitions_executed:memory"] + c.Counts["transitions_executed:sqlite"]
 	}
 	r.States = int64(p.states)
